@@ -64,4 +64,50 @@ theorem pingLoop_junk_turn (L : Layout) (rid dl : Nat) (pre post : List Turn) (t
     simp only [List.cons_append, pingLoop]
     rw [ih]
 
+/-! ### context start -/
+
+theorem lrun_port_const (bound : Nat) (s : LState) (calls : List StartCall)
+    (h : calls.all (· != .setsReported) = true) : (lrun bound s calls).port = s.port := by
+  induction calls generalizing s with
+  | nil => rfl
+  | cons c cs ih =>
+    simp only [List.all_cons, Bool.and_eq_true] at h
+    unfold lrun at ih ⊢
+    rw [List.foldl_cons, ih _ h.2]
+    cases c <;> simp [lstep] at h ⊢
+
+theorem start_order_port_final (bound : Nat) (s : LState) (calls pre post : List StartCall) (hs : s.up = false)
+    (hok : orderOk calls = true) (hsplit : calls = pre ++ post) (hup : (lrun bound s pre).up = true) :
+    (lrun bound s pre).port = (lrun bound s calls).port := by
+  induction calls generalizing s pre with
+  | nil =>
+    cases pre with
+    | nil => simp [lrun, hs] at hup
+    | cons a b => cases hsplit
+  | cons c cs ih =>
+    cases pre with
+    | nil => simp [lrun, hs] at hup
+    | cons c' pre' =>
+      simp only [List.cons_append, List.cons.injEq] at hsplit
+      obtain ⟨rfl, hcs⟩ := hsplit
+      cases c with
+      | startsResponder =>
+        simp only [orderOk] at hok
+        have hall : (pre' ++ post).all (· != StartCall.setsReported) = true := hcs ▸ hok
+        rw [List.all_append, Bool.and_eq_true] at hall
+        have h1 := lrun_port_const bound (lstep bound s .startsResponder) pre' hall.1
+        have h2 := lrun_port_const bound (lstep bound s .startsResponder) cs hok
+        unfold lrun at h1 h2 ⊢
+        rw [List.foldl_cons, List.foldl_cons, h1, h2]
+      | other =>
+        unfold lrun at hup ⊢
+        rw [List.foldl_cons] at hup ⊢
+        rw [List.foldl_cons]
+        exact ih (lstep bound s .other) pre' (by simpa [lstep] using hs) (by simpa [orderOk] using hok) hcs hup
+      | setsReported =>
+        unfold lrun at hup ⊢
+        rw [List.foldl_cons] at hup ⊢
+        rw [List.foldl_cons]
+        exact ih (lstep bound s .setsReported) pre' (by simpa [lstep] using hs) (by simpa [orderOk] using hok) hcs hup
+
 end QmiModel.Discovery
